@@ -85,6 +85,87 @@ func (c *Ctx) ruleLoopAlias(id string, fns []*ssa.Function, min int) {
 	}
 }
 
+// mutatorCore returns the function that holds the mutator's store write and broadcast: the mutator itself, or the
+// package helper it hands the work to (helpers are followed two levels deep). viaCall is the call in m.fn that leads there.
+func (c *Ctx) mutatorCore(d *dstate, fn *ssa.Function, depth int) (*ssa.Function, *core.Call) {
+	if len(core.CallsTo(fn, d.queueBroadcast)) > 0 {
+		return fn, nil
+	}
+	if depth == 0 {
+		return fn, nil
+	}
+	for _, cl := range core.CallsIn(fn) {
+		if cl.Static == nil || cl.Static.Package() != d.pkg || d.mutatorOf(cl.Static) != nil || cl.Static == fn {
+			continue
+		}
+		if g, _ := c.mutatorCore(d, cl.Static, depth-1); len(core.CallsTo(g, d.queueBroadcast)) > 0 {
+			return g, cl
+		}
+	}
+	return fn, nil
+}
+
+// queuesAfterWrites: on every successful path of fn, a store write is followed by a QueueBroadcast (helpers are summarised recursively). Returns the number of writing+queueing paths and a counterexample.
+func (c *Ctx) queuesAfterWrites(d *dstate, fn *ssa.Function, memo map[*ssa.Function]int) (nOK int, bad string, npaths int) {
+	if v, ok := memo[fn]; ok {
+		return v, "", 0
+	}
+	memo[fn] = 0
+	paths, err := core.EnumPaths(fn, core.PathOpts{})
+	if err != nil {
+		return 0, err.Error(), 0
+	}
+	for _, p := range paths {
+		if _, ok := p.Exit.(*ssa.Return); !ok {
+			continue
+		}
+		if isNil, known := p.ReturnsNilError(); known && !isNil {
+			continue
+		}
+		if errorNonNilOnPath(p) {
+			continue
+		}
+		wrote, queuedAfter := false, false
+		for _, pi := range p.Instrs() {
+			if _, isDefer := pi.In.(*ssa.Defer); isDefer && !pi.Deferred {
+				continue
+			}
+			if cl := core.CallOf(pi.In); cl != nil {
+				if cl.Is(d.queueBroadcast) {
+					queuedAfter = true
+					continue
+				}
+				if cl.Static != nil && d.mutatorOf(cl.Static) != nil {
+					wrote, queuedAfter = true, true
+					continue
+				}
+				if cl.Static != nil && cl.Static.Package() == d.pkg && cl.Static != fn && len(core.CallsTo(cl.Static, d.queueBroadcast)) > 0 {
+					// helper that broadcasts itself: summarise
+					n, b, _ := c.queuesAfterWrites(d, cl.Static, memo)
+					if b != "" {
+						bad = b
+					}
+					if n > 0 {
+						wrote, queuedAfter = true, true
+					}
+					continue
+				}
+			}
+			if c.isStoreWrite(d, pi.In) {
+				wrote, queuedAfter = true, false
+			}
+		}
+		if wrote && !queuedAfter {
+			bad = "a path changes the local store and reports success without queueing a broadcast: " + fmtPath(p, c.P)
+		}
+		if wrote && queuedAfter {
+			nOK++
+		}
+	}
+	memo[fn] = nOK
+	return nOK, bad, len(paths)
+}
+
 func checkC09(c *Ctx) {
 	c.R.Explanation = "Static rules over the mutators of the three replicated state types (wasp/distributed): (R1) every path that wrote the store and reports success queues a broadcast afterwards; (R2) what is queued is proto.Marshal of a StateBroadcastEvent whose element is the very variable written to the store; (R3) in bulk mutators the store write and the append to the event happen in the same loop iteration; (R4) no loop-carried alias: the pointer appended is distinct per iteration (go 1.14 range-variable semantics are honoured); (R5) the broadcast type queued by mutators never invalidates another broadcast; (R6) the timestamp is read and the entry stored under one hold of the state lock, so stamp order equals local application order."
 	c.R.NotCovered = "Value-level equality of the receiver's listing with the sender's (needs execution of the merge algebra, partly decided under C08), memberlist queue behaviour (retransmit limits)."
@@ -110,55 +191,21 @@ func checkC09(c *Ctx) {
 				delegated = true
 			}
 		}
-		paths, err := core.EnumPaths(f, core.PathOpts{})
-		if err != nil {
-			ru1.Undecided(key, c.where(f, f), err.Error())
-			continue
-		}
-		ru1.Evals(len(paths))
-		bad, nOK := "", 0
-		for _, p := range paths {
-			if _, ok := p.Exit.(*ssa.Return); !ok {
-				continue
-			}
-			if isNil, known := p.ReturnsNilError(); known && !isNil {
-				continue
-			}
-			if errorNonNilOnPath(p) {
-				continue
-			}
-			wrote, queuedAfter := false, false
-			for _, pi := range p.Instrs() {
-				if _, isDefer := pi.In.(*ssa.Defer); isDefer && !pi.Deferred {
-					continue
-				}
-				if c.isStoreWrite(d, pi.In) {
-					wrote, queuedAfter = true, false
-				}
-				if cl := core.CallOf(pi.In); cl != nil {
-					if cl.Is(d.queueBroadcast) {
-						queuedAfter = true
-					}
-					if cl.Static != nil && d.mutatorOf(cl.Static) != nil {
-						wrote, queuedAfter = true, true
-					}
-				}
-			}
-			if wrote && !queuedAfter {
-				bad = "a path changes the local store and reports success without queueing a broadcast: " + fmtPath(p, c.P)
-			}
-			if wrote && queuedAfter {
-				nOK++
-			}
-		}
-		if m.bulk {
-			// zero-iteration paths write nothing; at least one path must write and queue
-		}
+		nOK, bad, np := c.queuesAfterWrites(d, f, map[*ssa.Function]int{})
+		ru1.Evals(np)
 		ru1.Check(bad == "" && nOK > 0, key, c.where(f, f), fmt.Sprintf("%d successful writing path(s), each followed by a broadcast", nOK), bad+map[bool]string{true: "", false: " (no path both writes the store and queues a broadcast)"}[nOK > 0])
 		if delegated {
 			ru2.OK(key, c.where(f, f), "delegates to another mutator")
 			ru6.OK(key, c.where(f, f), "delegates to another mutator")
 			continue
+		}
+		// the rest is judged on the function that holds the write and the broadcast (the mutator or its helper)
+		outer := f
+		var via *core.Call
+		f, via = c.mutatorCore(d, outer, 2)
+		if f != outer {
+			c.R.Fn(c.fname(f))
+			fns = append(fns, f)
 		}
 		// R2
 		bad = ""
@@ -254,7 +301,7 @@ func checkC09(c *Ctx) {
 		// R6: clock read under the lock
 		bad = ""
 		var lock *core.Call
-		for _, cl := range core.CallsIn(f) {
+		for _, cl := range core.CallsIn(outer) {
 			if cl.Obj != nil && cl.Obj.Name() == "Lock" && cl.Obj.Pkg() != nil && cl.Obj.Pkg().Path() == "sync" {
 				if _, isDefer := cl.Instr.(*ssa.Defer); !isDefer && lock == nil {
 					lock = cl
@@ -265,7 +312,11 @@ func checkC09(c *Ctx) {
 		for _, cl := range core.CallsIn(f) {
 			if isClockCall(cl) {
 				nclock++
-				if lock == nil || !core.Dominates(lock.Instr, cl.Instr) {
+				at := cl.Instr
+				if via != nil {
+					at = via.Instr // the helper runs where the mutator calls it
+				}
+				if lock == nil || !core.Dominates(lock.Instr, at) {
 					bad = "the timestamp is read before the state lock is taken: another writer can apply a later-stamped change first and then be overwritten locally by this older-stamped one, while remote nodes keep the later one"
 				}
 			}
@@ -275,7 +326,7 @@ func checkC09(c *Ctx) {
 		}
 		ru6.Check(bad == "", key, c.where(f, f), "clock() dominated by Lock()", bad)
 	}
-	c.ruleLoopAlias("C09-R4", fns, 3)
+	c.ruleLoopAlias("C09-R4", fns, 2)
 
 	// R5
 	ru5 := c.R.Rule("C09-R5", "the memberlist.Broadcast type queued by mutators reports Invalidates == false for every other broadcast", "E11 constant return", 1)
